@@ -253,6 +253,10 @@ def run(ctx, rep):
     from .C01 import g1justify, wiresig
     g1justify(ctx, rep, only_class=dec_cls, floor=2)
     wiresig(ctx, rep, ids=("md_string", "md_tree", "md_geometry", "header"))
+    from ..presence import run_presence
+    rep.rules_text.append("PRESENCE: the header bit that announces the metadata block is set on every path on which the block is present and on no other; the block is written under the same test; the reader reads it exactly on the 'bit set' edge")
+    n_pr = run_presence(ctx, rep)
+    rep.floor("presence-flag sites (setter, writer, reader)", n_pr, 3)
     from ..rejects import run_rejects
     rep.rules_text.append("REJECT-LEDGER: every constant-bound rejection of a stream-derived field in the readers (a branch outcome that only reaches failing returns on `field op constant`) is listed in the frozen ledger rules/rejects.json; a new one narrows what the reader accepts")
     n_rej = run_rejects(ctx, rep, "REJECT-LEDGER", ("/draco/metadata/",))
